@@ -120,6 +120,8 @@ class Sym:
     def cint(self, name, lo, hi):
         """int chosen by the solver and realised at once (enumeration through the path tree)"""
         with NoTracing():
+            if lo > hi:      # empty range: no value to choose, the path stands for nothing
+                raise IgnoreAttempt
             space = context_statespace()
             v = SymbolicInt(name + space.uniq())
             space.add(v.var >= lo)
